@@ -33,4 +33,53 @@ def run(prop, tier, seed, replay=None):
         for b in bad[:5]:
             print("DIVERGENCE misc=%s at %s(%d) -> %s (universe %s)" % (",".join(b["clauses"]), b["k"], b["a"], b["res"], uname))
     print("MISC: %d trace lines judged, %d divergences" % (lines_total, total_bad))
+    interrupted_rebuild(tier, rnd, wd)
     return 0
+
+
+def interrupted_rebuild(tier, rnd, wd):
+    """kills inside Store::rebuild: step model PocketRebuild.tla (Recoverable holds; named deviation: no recovery on
+    reopen), images taken at every rebuild.* yield point validated against it by TraceRebuild.tla"""
+    import subprocess
+    mc = C.model_check("MC_Rebuild.tla", "MC_Rebuild.cfg", {}, workers=1, timeout=300, heap="2g")
+    bindir = C.build_harness("dev", bins=["rebuilddrv"])
+    nloss, nbad, nlines = {}, 0, 0
+    for uname in ["core", "c16", "c11"]:
+        upath = S.universe_path(uname)
+        u = json.load(open(upath))
+        edges, _ = S.sample_edges(uname, 40 if tier == "quick" else 400, rnd)
+        hs = [h for h in edges if h] + [[]]
+        for h in hs[::3]:
+            h.insert(rnd.randint(0, len(h)), dict(ST.extra_ops(rnd), k="xput"))
+        hp = os.path.join(wd, "rb_%s_h.ndjson" % uname)
+        tp = os.path.join(wd, "rb_%s_t.ndjson" % uname)
+        with open(hp, "w") as f:
+            for i, h in enumerate(hs):
+                f.write(json.dumps({"id": i, "ops": h}) + "\n")
+        p = subprocess.run([os.path.join(bindir, "rebuilddrv"), "--universe", upath, "--hist", hp, "--out", tp],
+                           stdout=subprocess.PIPE, stderr=subprocess.STDOUT, text=True, timeout=1800)
+        if p.returncode != 0:
+            raise C.ToolError("rebuilddrv failed: %s" % p.stdout[-800:])
+        rc, out = C.run_tlc("TraceRebuild.tla", "TraceRebuild.cfg", env={"TRACE": tp}, workers=1, timeout=900, heap="3g", stack="1g")
+        done = C.tlc_json_lines(out, "REBUILD")
+        if not done:
+            nc = C.tlc_json_lines(out, "NOTCONSUMED")
+            if nc:
+                line = open(tp).read().splitlines()[nc[-1]["reached"] - 1]
+                print("DIVERGENCE misc=RebuildStepOrder: the recorded yield points of Store::rebuild are not a path of PocketRebuild.tla; "
+                      "first unmatched line: %s" % line[:300])
+                nbad += 1
+                continue
+            raise C.ToolError("TraceRebuild failed:\n" + out[-2000:])
+        nlines += done[-1]["n"]
+        for b in C.tlc_json_lines(out, "BAD")[:5]:
+            nbad += 1
+            print("DIVERGENCE misc=%s at %s (occurrence %d, universe %s): reopening the image shows '%s', the model predicts '%s'; "
+                  "with the backup pieces put back: '%s'" % (b["why"], b["point"], b["occ"], uname, b["reopen"], b["predicted"], b["recover"]))
+        for x in C.tlc_json_lines(out, "LOSS"):
+            nloss.setdefault(x["point"], {}).setdefault(x["sees"], 0)
+            nloss[x["point"]][x["sees"]] += 1
+    print("MISC rebuild: model %d states (Recoverable holds); %d image lines validated against it, %d divergences from the model" %
+          (mc["states"], nlines, nbad))
+    print("MISC rebuild: named deviation (no recovery of an interrupted rebuild on reopen) observed as the model predicts: %s" %
+          json.dumps(nloss, sort_keys=True))
